@@ -321,6 +321,14 @@ def run(ctx):
                                           'no_failing_input_found': True,
                                           'theorem': 'C03 table theorem over this row no longer checks'},
                                'suffix': ' no-failing-input-found'})
+    od = getattr(ctx, 'order_diff', None)
+    if od:
+        # the same table extracted with the types used in the opposite order differs: for one of the two orders the
+        # class is not the translation of its declaration
+        violations.append({'replay': {'property': 'C03', 'kind': 'property-violated-on-real-code',
+                                      'what_fails': 'the attribute table of %s depends on the order in which the types are first used: '
+                                                    'in one of the two orders it is not the schema\'s' % od['type'],
+                                      'order_dependence': od}})
     # "the set of child sequences it can ever accept is exactly the language": run-time tie of the
     # templates to the matcher (same correspondence engine as C01/C02)
     from props import matcher_common as mc
